@@ -61,6 +61,8 @@ var c13Vars = []struct{ name, kind string }{
 	{"blink-matching-paren", "bool"}, {"completion-ignore-case", "bool"}, {"mark-modified-lines", "bool"}, {"show-all-if-ambiguous", "bool"},
 	{"history-preserve-point", "bool"}, {"completion-query-items", "int"}, {"history-size", "int"}, {"keyseq-timeout", "int"},
 	{"comment-begin", "string"}, {"bell-style", "string"}, {"emacs-mode-string", "string"},
+	// the editing mode a file selects is not the mode `$if mode=` tests (that is the application's)
+	{"editing-mode", "mode"},
 }
 
 func (g *Gen) c13Block(depth int, keymap *string, allowInclude bool, files map[string][]rcLine, x *c13X) []rcLine {
@@ -98,6 +100,8 @@ func (g *Gen) c13Block(depth int, keymap *string, allowInclude bool, files map[s
 				val = Pick(g, []string{"on", "off", "On", "OFF"})
 			case "int":
 				val = Pick(g, []string{"0", "5", "42", "100", "7"})
+			case "mode":
+				val = Pick(g, []string{"emacs", "vi"})
 			default:
 				val = Pick(g, []string{"none", "audible", "visible", "@", "(e)"})
 			}
